@@ -5,6 +5,7 @@ Operations: the six conversions and the queries of data.py, each compared with t
 """
 import oracle
 import gens
+import tpcommon as T
 from engine import Op, set_mode
 
 PROP = "C03"
@@ -459,6 +460,50 @@ class TPViews(CalOp):
             return "views of %r in %s are %r, definition says %r" % (date, m, out, want)
 
 
+class TPViewsZ(CalOp):
+    """The three date views of a FULL time point (time of day and UTC offset included): they are the views of its
+    own local date, whatever other points at the same instant - in other offsets, or the 24:00 spelling of the
+    same midnight - were asked before (sibling cases ask exactly those, one after the other)."""
+    name = "tpviewsz"
+    model = False
+    sibling = T.tp_sibling(1, keep_rep=0.6)
+    sibling_rate = 0.5
+
+    def gen(self, rng, tier, boost):
+        n = 500 * boost if tier == "quick" else 5000 * boost
+        for _ in range(n):
+            m = gens.mode(rng)
+            t = T.gen_year_edge_tp(rng, m) if rng.random() < 0.5 else T.gen_tp(rng, m)
+            if abs(t[1]) > 9000:
+                continue
+            yield (m, t)
+
+    def line(self, a):
+        return "tpviewsz %s %s" % (a[0], T.tp_str(a[1]))
+
+    def label(self, a):
+        return "tpviewsz/%s/%s" % (a[0], a[1][0])
+
+    def impl(self, a):
+        set_mode(a[0])
+        p = T.mk_tp(a[1])
+        parts = [_fmt(p.get_calendar_date()), _fmt(p.get_ordinal_date()), _fmt(p.get_week_date())]
+        c, o, w = p.to_calendar_date(), p.to_ordinal_date(), p.to_week_date()
+        objs = [_fmt((c.year, c.month_of_year, c.day_of_month)), _fmt((o.year, o.day_of_year)),
+                _fmt((w.year, w.week_of_year, w.day_of_week))]
+        if parts != objs:
+            return "MISMATCH get_* %r vs to_* %r" % (parts, objs)
+        return " | ".join(parts)
+
+    def oracle(self, a, out):
+        m, t = a
+        n = oracle.date_day_num(m, T.date_of(t))
+        want = " | ".join([_fmt(oracle.cal_of_day_num(m, n)), _fmt(oracle.ord_of_day_num(m, n)),
+                           _fmt(oracle.week_of_day_num(m, n))])
+        if out != want:
+            return "date views of %s in %s are %r, its own local date is %r" % (T.describe_tp(t), m, out, want)
+
+
 class SpecQ(Op):
     """The harness's oracle (harness/oracle.py, a Python transcription of IsoDT/Spec/Calendar.lean) against
     the Lean Spec itself: the "implementation" here is the oracle, the "model" is the specification the
@@ -520,4 +565,4 @@ def ops():
             OrdWeekStart(), WeeksInYear(),
             _conv("c2o", "c", "o")(), _conv("o2c", "o", "c")(), _conv("w2c", "w", "c")(),
             _conv("c2w", "c", "w")(), _conv("w2o", "w", "o")(), _conv("o2w", "o", "w")(),
-            TPViews(), SpecQ()]
+            TPViews(), TPViewsZ(), SpecQ()]
